@@ -4,12 +4,68 @@
    T.124 and MS-RDPBCGR).  What must be decoded: the [expected_*] definitions at the head of
    C04_proofs.v.  [valid_cfg] = the Rust types (String = Unicode scalar values incl. non-BMP, u16,
    u32), a user id as the PER reader returns it, and the size one PER length determinant can
-   describe (16383 bytes of user data: client info and confirm-active). *)
+   describe (16383 bytes of user data: client info and confirm-active).
+   Network level authentication: emitters Ntlm.v (NEGOTIATE / AUTHENTICATE) and CsspGate.v + CsspGateExec.v
+   (cssp_connect and its four DER writers); spec StrictNla.v (strict parsers written from MS-NLMP 2.2.1.1,
+   2.2.1.3, 2.2.2.1, 2.2.2.7 and MS-CSSP 2.2.1, 2.2.1.2); proofs C04_nla_proofs.v, concrete instances
+   C04_nla_examples.v.  The hash functions (md4, md5, hmac with 16-byte digests), String::to_uppercase, the
+   yasna readers of the server's replies, the server's replies themselves, the certificate's public key and
+   the client's randomness are universally quantified. *)
 From RdpV Require Import Base Msg LayoutsGlobal LayoutsConnect Link Tpkt Global ClientPdus StrictPdu C04_proofs.
+From RdpV Require Import Rc4 Md5 Md4 Hmac Utf LayoutsNtlmAuth Ntlm NtlmSeal RefNlmp C15_proofs DerRead CsspGate CsspGateExec C01_proofs.
+From RdpV Require Import StrictNla C04_nla_proofs C04_nla_examples.
 Open Scope list_scope.
 Open Scope N_scope.
 
-(* MAIN THEOREM (RDP layers).  For every profile, every configuration (client name, domain, user,
+(* MAIN THEOREM (whole connection, tokens included).  A connection with network level authentication: the
+   client writes the X.224 connection request, then -- inside TLS -- the CredSSP messages [ws] of
+   cssp_connect (TSRequest with the NTLM NEGOTIATE; TSRequest with the NTLM AUTHENTICATE and the sealed public
+   key; TSRequest with the sealed TSCredentials; fewer when the exchange fails), then the MCS / RDP
+   transcript.  For every profile, every configuration (all of Unicode, valid_cfg as below), every
+   server-assigned identifier set and input events, every md5 / hmac (16-byte digests), every decoder of
+   the server's replies, every reply stream, certificate key, client nonce and session key, password mode
+   or NT-hash mode (credentials_of), restricted admin or not, and every CHALLENGE_MESSAGE [c] the server
+   may answer with whose echoed parts are well formed (TargetInfo = AV pairs with ids 1..10 closed by a
+   zero-length MsvAvEOL and nothing after it; the MsvAvTimestamp the client picks has 8 bytes) -- any flags
+   (UNICODE / VERSION / KEY_EXCH / TARGET_INFO on or off), any server challenge, target name, version bytes
+   and payload placement:
+   EVERY message of the whole transcript is accepted by the strict parser of its layer stack
+   (strict_parse_client: TPKT frames by StrictPdu.strict_parse, CredSSP messages by StrictNla.strict_parse_nla
+   down to the NTLM tokens inside) and decodes to exactly what the configuration determines:
+   [nla_decoded] spells it out for the CredSSP messages (negotiate flags 0x60088235 and empty names; the
+   AUTHENTICATE with the negotiated flags, Version present iff the flag, 24-byte LMv2 response, NTLMv2
+   response = proof ++ (1, 1, zeros, the server's timestamp, the client nonce, the server's AV pairs), domain
+   and user = the configured strings (UTF-16LE decoded when UNICODE, else the bytes sent as OEM), empty
+   workstation, 16-byte encrypted session key; the third message's authInfo = SEAL of a TSCredentials that
+   strict-parses to credType 1 and the three configured strings, or three empty strings under restricted
+   admin); a successful run wrote all three.
+   Outside the quantifier (known finding C04-echo, see C04_echoed_challenge_refuted): a CHALLENGE whose
+   TargetInfo carries bytes after MsvAvEOL or whose MsvAvTimestamp is not 8 bytes is accepted by the client
+   and echoed into the NTLMv2 response unvalidated. *)
+Theorem C04_all_parse :
+  forall (md5 : bytes -> bytes) (hmac : bytes -> bytes -> bytes),
+  (forall k x, List.length (hmac k x) = 16%nat) ->
+  forall p (rd_chal rd_val : bytes -> outcome bytes)
+         swapped cfg i evs st restricted cert replies nonce key c pairs ts res ws,
+    valid_cfg swapped cfg i -> Forall sendable evs ->
+    credentials_of cfg st ->
+    cssp_connect md5 hmac p x_create_ts_request x_create_ts_authenticate x_create_ts_credentials x_create_ts_authinfo
+                 rd_chal rd_val st restricted cert replies nonce key = (res, ws) ->
+    (forall chal, rd_chal (fst (link_read0 replies)) = Ok chal -> chal = challenge_bytes c) ->
+    wf_challenge c -> c_target_info c = av_bytes pairs [] -> Forall av_ok pairs ->
+    av_find 7 (rev pairs) = Some ts -> List.length ts = 8%nat ->
+    List.length nonce = 8%nat -> List.length key = 16%nat ->
+    (forall pk, cert = Ok pk -> nlen pk < BIG) ->
+    exists ds,
+      nla_decoded hmac st restricted c nonce key ts pairs ds /\
+      (res = Ok tt -> List.length ws = 3%nat) /\
+      Forall2 (fun o d => exists f, o = Ok f /\ strict_parse_client f = Some d)
+              (whole_transcript p swapped cfg i evs ws) (whole_expected swapped cfg i evs ds).
+Proof. exact all_parse_whole. Qed.
+Print Assumptions C04_all_parse.
+
+(* The RDP layers on their own (= the whole transcript of a connection negotiated WITHOUT network level
+   authentication, where no token is written).  For every profile, every configuration (client name, domain, user,
    password ranging over ALL lists of Unicode scalar values, any screen size, keyboard layout,
    offered protocols, flags), every server-assigned identifier set (selected protocol, reported
    version, user id, share id), every sequence of pointer / keyboard events, and for both settings of
@@ -18,16 +74,14 @@ Open Scope N_scope.
    cooperate, request-control, font-list, one input PDU per event, disconnect ultimatum -- is
    written (no write fails), is accepted by the strict parser of its layer stack (TPKT, X.224,
    MCS/PER or BER, GCC, share headers, capability sets ...), and decodes to exactly the values
-   the configuration and the server determine.
-   _partial: the property also names the NTLM and CredSSP tokens; those layers (C15 / C07's
-   models) are not covered by this theorem. *)
-Theorem C04_all_parse_partial :
+   the configuration and the server determine. *)
+Theorem C04_rdp_layers_parse :
   forall p swapped c i evs,
     valid_cfg swapped c i -> Forall sendable evs ->
     Forall2 (fun o d => exists f, o = Ok f /\ strict_parse f = Some d)
             (emitted p swapped c i evs) (expected swapped c i evs).
 Proof. exact all_parse. Qed.
-Print Assumptions C04_all_parse_partial.
+Print Assumptions C04_rdp_layers_parse.
 
 (* The run of all those writes reaches its end, and the frames on the wire parse, in order, to the
    expected PDUs. *)
@@ -160,3 +214,148 @@ Theorem C04_beyond_one_per_fragment :
   forall n r, 16384 <= n < 32768 -> per_length (per_write_length n ++ r) = None.
 Proof. exact per_length_beyond. Qed.
 Print Assumptions C04_beyond_one_per_fragment.
+
+(* ---- network level authentication, per message ---- *)
+(* NTLM NEGOTIATE_MESSAGE: signature, type 1, flags 0x60088235, both name descriptors zero with the
+   corresponding "supplied" flags clear, no payload: accepted, decoded to exactly that. *)
+Theorem C04_ntlm_negotiate :
+  forall p, exists tok, create_negotiate_message p = Ok tok /\ sp_negotiate tok = Some expected_negotiate /\
+                        strict_parse_nla (x_create_ts_request tok) = Some (NlaNegotiate 2 expected_negotiate).
+Proof.
+  exact (fun p => ex_intro _ negotiate_bytes (conj (negotiate_written p) (conj negotiate_parses nla_negotiate_message))).
+Qed.
+Print Assumptions C04_ntlm_negotiate.
+
+(* NTLM AUTHENTICATE_MESSAGE: for every client state (any domain / user of Unicode scalar values, any
+   response keys), every well-formed CHALLENGE as above and every randomness, whatever token
+   read_challenge_message returns is accepted by the strict parser: Len = MaxLen in all six descriptors, the
+   six fields tile the payload that starts right after the MIC (offset 80, or 88 with Version), Version
+   present iff NEGOTIATE_VERSION, 16-byte MIC, 24-byte LM response, NTLMv2 response = 16-byte proof ++
+   NTLMv2_CLIENT_CHALLENGE (RespType 1, HiRespType 1, reserved zeros, the 8-byte timestamp, the 8-byte client
+   nonce, the AV pairs closed by MsvAvEOL), names in the negotiated character set (UTF-16LE without unpaired
+   surrogates under UNICODE), 16-byte EncryptedRandomSessionKey; and the decoded fields are
+   expected_authenticate: flags as negotiated, domain and user = the configured strings. *)
+Theorem C04_ntlm_authenticate :
+  forall (hmac : bytes -> bytes -> bytes), (forall k x, List.length (hmac k x) = 16%nat) ->
+  forall p st negotiate c nonce key pairs ts token,
+  wf_challenge c -> c_target_info c = av_bytes pairs [] -> Forall av_ok pairs ->
+  av_find 7 (rev pairs) = Some ts -> List.length ts = 8%nat ->
+  List.length nonce = 8%nat -> List.length key = 16%nat ->
+  Forall scalar (Ntlm.n_domain st) -> Forall scalar (Ntlm.n_user st) ->
+  read_challenge_message hmac p st negotiate (challenge_bytes c) nonce key = Ok token ->
+  exists ek,
+    rc4k (hmac (n_key_nt st) (hmac (n_key_nt st) (c_server_challenge c ++ temp_of ts nonce (c_target_info c)))) key = Ok ek /\
+    List.length ek = 16%nat /\
+    token = token_of hmac (pieces_of hmac st c nonce ts ek) (c_flags c) negotiate (challenge_bytes c) key /\
+    nlen token < 1048576 /\
+    sp_authenticate token = Some (expected_authenticate hmac st c negotiate nonce key ts ek pairs).
+Proof. exact authenticate_parses. Qed.
+Print Assumptions C04_ntlm_authenticate.
+
+(* The same at the level of bytes: ANY six fields of the sizes the client's guard admits, laid out by
+   authenticate_message_l behind any 16-byte MIC, parse to exactly those fields (the layout arithmetic of the
+   header is right for every length, with and without Version). *)
+Theorem C04_authenticate_layout :
+  forall lm nt dom user ek M flags ntr d u,
+  nlen lm = 24 -> nlen nt <= 65535 -> nlen dom <= 65535 -> nlen user <= 65535 -> nlen ek = 16 ->
+  flags < 4294967296 -> List.length M = 16%nat ->
+  exactly sp_ntlmv2_response nt = Some ntr ->
+  decode_name (N.testbit flags 0) dom = Some d -> decode_name (N.testbit flags 0) user = Some u ->
+  sp_authenticate (auth_header lm nt dom user [] ek flags ++ M ++ token_payload lm nt dom user ek)
+  = Some (auth_expected flags M lm ntr d u ek).
+Proof. exact auth_token_parses. Qed.
+Print Assumptions C04_authenticate_layout.
+
+(* CredSSP: the three TSRequest writers produce, for every token / sealed blob (below 2^60 bytes), DER that
+   the strict parser accepts -- definite minimal lengths at every level, version 2, exactly the fields
+   written, the octet strings returned unchanged. *)
+Theorem C04_ts_requests :
+  (forall nego, nlen nego < SMALL ->
+     exactly sp_ts_request (x_create_ts_request nego) = Some (mkTsRequest 2 (Some [nego]) None None None None)) /\
+  (forall nego pka, nlen nego < SMALL -> nlen pka < SMALL ->
+     exactly sp_ts_request (x_create_ts_authenticate nego pka) = Some (mkTsRequest 2 (Some [nego]) None (Some pka) None None)) /\
+  (forall info, nlen info < SMALL ->
+     exactly sp_ts_request (x_create_ts_authinfo info) = Some (mkTsRequest 2 None (Some info) None None None)).
+Proof. exact (conj ts_request_parses (conj ts_authenticate_parses ts_authinfo_parses)). Qed.
+Print Assumptions C04_ts_requests.
+
+(* TSCredentials as cssp_connect hands it to gss_wrapex: credType 1, credentials = DER TSPasswordCreds with
+   three OCTET STRINGs that decode -- in the character set of the CHALLENGE -- to the configured domain, user
+   and password (all of Unicode, surrogate pairs included), or to three empty strings under restricted admin. *)
+Theorem C04_ts_credentials :
+  forall u restricted st, strings st -> sized st ->
+    exactly (sp_ts_credentials u) (creds_plaintext u restricted st) = Some (expected_creds u restricted st).
+Proof. exact creds_plaintext_parses. Qed.
+Print Assumptions C04_ts_credentials.
+
+(* The CredSSP exchange on its own: every message cssp_connect writes, for every reply stream. *)
+Theorem C04_nla_transcript :
+  forall (md5 : bytes -> bytes) (hmac : bytes -> bytes -> bytes),
+  (forall k x, List.length (hmac k x) = 16%nat) ->
+  forall p (rd_chal rd_val : bytes -> outcome bytes) st restricted cert replies nonce key c pairs ts res ws,
+  cssp_connect md5 hmac p x_create_ts_request x_create_ts_authenticate x_create_ts_credentials x_create_ts_authinfo
+               rd_chal rd_val st restricted cert replies nonce key = (res, ws) ->
+  (forall chal, rd_chal (fst (link_read0 replies)) = Ok chal -> chal = challenge_bytes c) ->
+  wf_challenge c -> c_target_info c = av_bytes pairs [] -> Forall av_ok pairs ->
+  av_find 7 (rev pairs) = Some ts -> List.length ts = 8%nat ->
+  List.length nonce = 8%nat -> List.length key = 16%nat ->
+  strings st -> sized st -> (forall pk, cert = Ok pk -> nlen pk < BIG) ->
+  exists ds, Forall2 (fun w d => strict_parse_nla w = Some d) ws ds /\
+             nla_decoded hmac st restricted c nonce key ts pairs ds /\
+             (res = Ok tt -> List.length ws = 3%nat).
+Proof. exact nla_transcript. Qed.
+Print Assumptions C04_nla_transcript.
+
+(* DER definite lengths are written in the minimal form the strict reader demands, for every size a usize
+   can hold. *)
+Theorem C04_der_length_minimal :
+  forall n r, n < DER_MAX -> der_length (CsspGateExec.der_len n ++ r) = Some (n, r).
+Proof. exact der_length_len. Qed.
+Print Assumptions C04_der_length_minimal.
+
+(* Non-vacuity (concrete MD4 / MD5 / HMAC-MD5 / RC4, vm_compute): C01's honest exchange -- domain "Dom", user
+   "User", password "Paess" + U+1F600, a CHALLENGE with three AV pairs -- satisfies every hypothesis (also those
+   of C04_all_parse about the configuration, for a configuration with these credentials); the run
+   writes the python reference client's three messages; the strict parser decodes them to the expected
+   structures; the AUTHENTICATE names are the configured ones; the TSCredentials plaintext decodes to the
+   three configured strings (non-BMP password included) and is what the third message seals. *)
+Theorem C04_nla_nonvacuous :
+  (x_read_ts_server_challenge Debug ex_reply1 = Ok (challenge_bytes ex_chal) /\
+   wf_challenge ex_chal /\ c_target_info ex_chal = av_bytes ex_pairs [] /\ Forall av_ok ex_pairs /\
+   av_find 7 (rev ex_pairs) = Some ex_ts /\ List.length ex_ts = 8%nat /\
+   List.length ex_nonce = 8%nat /\ List.length ex_key = 16%nat /\
+   strings ex_state /\ sized ex_state /\ nlen ex_pubkey < BIG) /\
+  (valid_cfg true ex_whole_cfg demo_ids /\ Forall sendable demo_events /\ credentials_of ex_whole_cfg ex_state) /\
+  (ex_run (Ok ex_pubkey) [ex_reply2_ok] = (Ok tt, [ex_w1; ex_w2; ex_w3]) /\
+   map strict_parse_nla [ex_w1; ex_w2; ex_w3]
+   = [Some (NlaNegotiate 2 expected_negotiate);
+      Some (NlaAuthenticate 2 (expected_authenticate hmac_md5 ex_state ex_chal negotiate_bytes ex_nonce ex_key ex_ts ex_ek ex_pairs) ex_sealed2);
+      Some (NlaCredentials 2 ex_sealed3)] /\
+   a_domain (expected_authenticate hmac_md5 ex_state ex_chal negotiate_bytes ex_nonce ex_key ex_ts ex_ek ex_pairs) = NUnicode ex_dom /\
+   a_user (expected_authenticate hmac_md5 ex_state ex_chal negotiate_bytes ex_nonce ex_key ex_ts ex_ek ex_pairs) = NUnicode ex_user /\
+   exactly (sp_ts_credentials true) (creds_plaintext true false ex_state)
+   = Some (mkPasswordCreds (NUnicode ex_dom) (NUnicode ex_user) (NUnicode ex_pw)) /\
+   match build_security_interface md5 ex_key with
+   | Ok c0 => match wrap_all hmac_md5 c0 [ex_pubkey; creds_plaintext true false ex_state] with
+              | Ok (l, _) => l = [ex_sealed2; ex_sealed3]
+              | _ => False
+              end
+   | _ => False
+   end).
+Proof. exact (conj ex_nla_hypotheses (conj ex_whole_hypotheses ex_nla_run)). Qed.
+Print Assumptions C04_nla_nonvacuous.
+
+(* KNOWN FINDING C04-echo (refutation outside the hypotheses of C04_all_parse): the client copies the
+   server's TargetInfo and MsvAvTimestamp into the NTLMv2 response without validating them.  (a) two bytes
+   after MsvAvEOL, (b) a 4-byte MsvAvTimestamp: the client accepts the CHALLENGE, returns a token, and the
+   strict parser REJECTS that token (AV list not closed at the end of NtChallengeResponse / Reserved3 not
+   zero because the structure is shifted).  Only a non-conforming server triggers it. *)
+Theorem C04_echoed_challenge_refuted :
+  (wf_challenge ex_chal_trailing /\
+   exists t, read_challenge_message hmac_md5 Debug ex_state negotiate_bytes (challenge_bytes ex_chal_trailing) ex_nonce ex_key = Ok t /\
+             sp_authenticate t = None) /\
+  (wf_challenge ex_chal_ts4 /\
+   exists t, read_challenge_message hmac_md5 Debug ex_state negotiate_bytes (challenge_bytes ex_chal_ts4) ex_nonce ex_key = Ok t /\
+             sp_authenticate t = None).
+Proof. exact ex_echo_refuted. Qed.
+Print Assumptions C04_echoed_challenge_refuted.
